@@ -184,6 +184,20 @@ fn main() {
             v["model_layout_drift"] = drift.into();
             println!("{}", v);
         }
+        "mrun" => {
+            let doc: serde_json::Value = serde_json::from_str(&std::fs::read_to_string(&args[2]).unwrap()).unwrap();
+            let shards: usize = arg(&args, "--shards", 1);
+            let seed: u64 = arg(&args, "--seed", 1);
+            let dir: PathBuf = PathBuf::from(arg(&args, "--out", "out/traces".to_string()));
+            let mut out = TraceOut::new(&dir, "mrun", shards);
+            io::reset(io::Sched::Whole, io::Sched::Whole, None);
+            let mut r = rng(seed, 777);
+            let (compared, drift) = merger::replay_mruns(&mut out, &doc, &mut r);
+            let mut v = out.finish();
+            v["model_keys_compared"] = compared.into();
+            v["model_order_drift"] = drift.into();
+            println!("{}", v);
+        }
         "one" => {
             let family = args[2].clone();
             let seed: u64 = args[3].parse().unwrap();
